@@ -11,7 +11,10 @@ fn pipeline_fwd(op: &Op, ctx: &dyn Context, operands: &mut dyn CoordinateSet) ->
         if step.params.boolean("omit_fwd") {
             continue;
         }
-        let m = match step.params.name.as_str() {
+        // A nested pipeline (e.g. a macro) whose text starts with a stack operator carries that
+        // operator's name, but is not a stack operator itself
+        let name = if step.steps.is_empty() { step.params.name.as_str() } else { "" };
+        let m = match name {
             "push" => do_the_push(&mut stack, operands, &step.params.boolean),
             "pop" => do_the_pop(&mut stack, operands, &step.params.boolean),
             "stack" => stack_fwd(&mut stack, operands, &step.params),
@@ -37,7 +40,8 @@ fn pipeline_inv(op: &Op, ctx: &dyn Context, operands: &mut dyn CoordinateSet) ->
             continue;
         }
         // Note: Under inverse invocation "push" calls pop and vice versa
-        let m = match step.params.name.as_str() {
+        let name = if step.steps.is_empty() { step.params.name.as_str() } else { "" };
+        let m = match name {
             "push" => do_the_pop(&mut stack, operands, &step.params.boolean),
             "pop" => do_the_push(&mut stack, operands, &step.params.boolean),
             "stack" => stack_inv(&mut stack, operands, &step.params),
